@@ -50,3 +50,7 @@ pub fn skip_u32_array(input: &[u8]) -> SudachiNomResult<&[u8], Vec<u32>> {
 pub fn u32_parser(input: &[u8]) -> SudachiNomResult<&[u8], u32> {
     le_u32(input)
 }
+
+// verification hook: harness text lives outside the repository (see MANIFEST.hooks)
+#[cfg(any(kani, sudachi_verif))]
+include!(concat!(env!("SUDACHI_VERIF_DIR"), "/dic__read__mod.rs"));
